@@ -16,7 +16,12 @@ func zzWorld(nk int) (*Handler, *model.Store, int64) {
 	rt.ClockFreeze(true) // A1: one instant per command
 	now := rt.Clock()
 	rt.Assume(rt.And(now >= 1700000000, now < 1<<31))
-	h := &Handler{data: make(map[string]entry), mutex: new(sync.RWMutex)}
+	// the instance every connection gets (inmem.New), its map emptied in place
+	hh, _ := New()
+	h := hh.(*Handler)
+	for k := range h.data {
+		delete(h.data, k)
+	}
 	ref := &model.Store{Name: "ref"}
 	for i := 0; i < nk; i++ {
 		n := "k" + string(rune('0'+i))
@@ -163,7 +168,12 @@ func ZZStep() {
 func ZZConcurrent() {
 	nk := 1
 	h, ref, now := zzWorld(nk)
-	rt.Guard(h.data, h.mutex, "c17-map")
+	// every connection obtains its handler from inmem.New, like the server does
+	hb0, _ := New()
+	hB := hb0.(*Handler)
+	rt.Assert("c17-connections-share-one-map", len(hB.data) == len(h.data))
+	// lock discipline: some mutex is held (write-held for writes) at every access to the map
+	rt.Guard(h.data, nil, "c17-map")
 	kinds := []int{zSet, zAdd, zDelete, zGet, zAppend, zTouch, zGetE}
 	type op struct {
 		kind  int
@@ -182,7 +192,7 @@ func ZZConcurrent() {
 	}
 	a, b := mk("a."), mk("b.")
 	key := func() []byte { return append([]byte(nil), model.Keys[0]...) }
-	run := func(o *op) {
+	run := func(h *Handler, o *op) {
 		sr := common.SetRequest{Key: key(), Data: append([]byte(nil), o.data...), Flags: o.flags, Exptime: o.ttl}
 		switch o.kind {
 		case zSet:
@@ -228,8 +238,8 @@ func ZZConcurrent() {
 	}
 	var wg sync.WaitGroup
 	wg.Add(2)
-	go func() { defer wg.Done(); run(a) }()
-	go func() { defer wg.Done(); run(b) }()
+	go func() { defer wg.Done(); run(h, a) }()
+	go func() { defer wg.Done(); run(hB, b) }()
 	wg.Wait()
 	rt.Reach("both-done")
 	match := func(first, second *op) bool {
@@ -247,9 +257,7 @@ func ZZConcurrent() {
 			}
 		}
 		// final state (read under the lock, like any other user of the map)
-		h.mutex.RLock()
 		rd, e := zzReadable(h, 0)
-		h.mutex.RUnlock()
 		r := &s.E[0]
 		ok = rt.And(ok, rd == r.Present)
 		if len(e.data) == len(r.Data) {
